@@ -355,6 +355,12 @@ impl GrandState {
             ));
         }
         if option == EnterSubshellOption::Ignore {
+            if self.current_state.action != Action::Ignore {
+                // It is the subshell that starts ignoring the signal. The
+                // signal has not been ignored since the shell startup, so the
+                // user may still set a trap for it.
+                self.current_state.origin = Origin::Subshell;
+            }
             self.current_state.action = Action::Ignore;
         }
 
